@@ -203,6 +203,8 @@ def collapse_items(items: ExpandedItems, is_linetable: bool) -> CollapsedItems:
             (item if is_linetable else prev_item).line_offset == 0
             and prev_item.bytecode_offset >= (254 if is_linetable else 255)
             and item.bytecode_offset != 0
+            # A range without a line is continued with no line, not a zero offset
+            and prev_item.line_offset is not None
         )
         # However, when the line offset is split, the current bytecode offset should be
         # zero
@@ -251,7 +253,7 @@ def expand_items(items: CollapsedItems, is_linetable: bool) -> ExpandedItems:
                         bytecode_offset=MAX_BYTECODE,
                     )
                 )
-                if is_linetable:
+                if is_linetable and line_offset is not None:
                     line_offset = 0
                 bytecode_offset -= MAX_BYTECODE
                 emitted_extra = True
